@@ -1,7 +1,11 @@
 // Kani harnesses woven into crates/runtime/src/types/number.rs (child module, sees private items).
 // @weave crates/runtime/src/types/number.rs
+#![allow(unused)]
 use super::*;
 
+const P53: i64 = 1 << 53;
+
+// Inputs are drawn in a fixed order: kind flag (bool, 1 byte), then 8 payload bytes.
 fn any_num() -> KNumber {
     let is_int: bool = kani::any();
     let bits: u64 = kani::any();
@@ -12,13 +16,33 @@ fn any_num() -> KNumber {
     }
 }
 
+fn same(a: KNumber, b: KNumber) -> bool {
+    match (a, b) {
+        (KNumber::I64(x), KNumber::I64(y)) => x == y,
+        (KNumber::F64(x), KNumber::F64(y)) => x.to_bits() == y.to_bits() || (x.is_nan() && y.is_nan()),
+        _ => false,
+    }
+}
+
+fn as_f(a: KNumber) -> f64 {
+    match a {
+        KNumber::I64(x) => x as f64,
+        KNumber::F64(x) => x,
+    }
+}
+
+// two's complement reduction of a mathematical integer
+fn wrap(x: i128) -> i64 {
+    (x as u128 & 0xffff_ffff_ffff_ffff) as u64 as i64
+}
+
+// A Hasher that records exactly what was fed to it.
 struct Rec(u64, u32);
 impl Hasher for Rec {
     fn finish(&self) -> u64 {
         self.0
     }
     fn write(&mut self, bytes: &[u8]) {
-        // number hashing only ever calls write_u64; any other call makes hashes differ
         self.1 += 1 + bytes.len() as u32;
     }
     fn write_u64(&mut self, n: u64) {
@@ -27,9 +51,12 @@ impl Hasher for Rec {
     }
 }
 
+// ---------------------------------------------------------------------------------- C14
+
 // @props C14
-// @fns KNumber::hash, KNumber::eq
-// @bound full 64-bit, both kinds
+// @fns impl Hash for KNumber, impl PartialEq for KNumber
+// @bound both operands: any kind (I64 / F64), all 2^64 payloads; no loop
+// @assume a recording Hasher stands in for the map's hasher: equal feeds imply equal hashes for every Hasher
 #[kani::proof]
 fn c14_heq() {
     let a = any_num();
@@ -39,19 +66,534 @@ fn c14_heq() {
     a.hash(&mut ha);
     b.hash(&mut hb);
     if a == b {
-        assert!(ha.0 == hb.0 && ha.1 == hb.1, "C14.heq: equal numbers hash equally");
+        assert!(ha.0 == hb.0 && ha.1 == hb.1, "C14.heq: equal numbers feed the hasher identically");
     }
     kani::cover!(a == b && a.is_f64() != b.is_f64(), "equal mixed-kind pair");
+    kani::cover!(a == b && a.is_f64() && b.is_f64() && a.to_bits() != b.to_bits(), "equal floats with different bits (+0/-0)");
+}
+
+// @props C14
+// @fns impl PartialEq for KNumber
+// @bound all kinds, full width; exactness of mixed-kind equality asserted for |int| <= 2^53 (beyond: finding F12, harness c14_eq_exact_large)
+#[kani::proof]
+fn c14_eq_laws() {
+    let a = any_num();
+    let b = any_num();
+    assert!((a == b) == (b == a), "C14.eq: == is symmetric");
+    if !a.is_nan() {
+        assert!(a == a, "C14.eq: == is reflexive on non-NaN");
+    }
+    assert!((a != b) == !(a == b), "C14.eq: != is the negation of ==");
+    match (a, b) {
+        (KNumber::I64(x), KNumber::I64(y)) => assert!((a == b) == (x == y), "C14.eq: int equality is value equality"),
+        (KNumber::F64(x), KNumber::F64(y)) => assert!((a == b) == (x == y), "C14.eq: float equality is IEEE equality"),
+        (KNumber::I64(x), KNumber::F64(y)) | (KNumber::F64(y), KNumber::I64(x)) => {
+            if x >= -P53 && x <= P53 {
+                // |x| <= 2^53: x as f64 is exact, so exact numeric equality is y == x as f64 and
+                // y integral and representable; stated independently of the implementation:
+                let exact = y.is_finite() && y >= -9007199254740992.0 && y <= 9007199254740992.0
+                    && (y as i64) == x && ((y as i64) as f64) == y;
+                assert!((a == b) == exact, "C14.eq: mixed equality is exact numeric equality for |int| <= 2^53");
+            }
+        }
+    }
+    kani::cover!(a == b && a.is_i64() && b.is_f64(), "int == float");
+    kani::cover!(a != b && a.is_i64() && b.is_f64(), "int != float");
+}
+
+// Known finding F12 partition: mixed-kind equality beyond 2^53 goes through a lossy `as f64`.
+// @props C14
+// @fns impl PartialEq for KNumber
+// @bound mixed-kind pairs with |int| > 2^53 only
+#[kani::proof]
+fn c14_eq_exact_large() {
+    let x: i64 = kani::any();
+    let yb: u64 = kani::any();
+    let y = f64::from_bits(yb);
+    kani::assume(x < -P53 || x > P53);
+    kani::assume(y.is_finite() && y >= -9223372036854775808.0 && y < 9223372036854775808.0);
+    // y is integral here whenever |y| >= 2^53; exact comparison through i128
+    let exact = y.fract() == 0.0 && (y as i128) == (x as i128);
+    assert!((KNumber::I64(x) == KNumber::F64(y)) == exact, "C14.eq.large: mixed equality is exact numeric equality for |int| > 2^53");
+}
+
+// @props C14
+// @fns impl Ord for KNumber, impl PartialOrd for KNumber
+// @bound pairs, all kinds, full width, NaN excluded; mixed kinds restricted to |int| <= 2^53
+#[kani::proof]
+fn c14_ord_pair() {
+    let a = any_num();
+    let b = any_num();
+    kani::assume(!a.is_nan() && !b.is_nan());
+    let ab = a.cmp(&b);
+    let ba = b.cmp(&a);
+    assert!(ab == ba.reverse(), "C14.ord: cmp is antisymmetric");
+    assert!((ab == Ordering::Equal) == (a == b), "C14.ord: cmp == Equal iff ==");
+    assert!(a.partial_cmp(&b) == Some(ab), "C14.ord: partial_cmp agrees with cmp");
+    assert!(!(a < a), "C14.ord: < is irreflexive");
+    assert!((a < b) as u8 + (a == b) as u8 + (a > b) as u8 == 1, "C14.ord: trichotomy");
+    // value oracle
+    match (a, b) {
+        (KNumber::I64(x), KNumber::I64(y)) => assert!(ab == x.cmp(&y), "C14.ord: int order"),
+        (KNumber::F64(x), KNumber::F64(y)) => assert!(Some(ab) == x.partial_cmp(&y), "C14.ord: float order"),
+        (KNumber::I64(x), KNumber::F64(y)) => {
+            if x >= -P53 && x <= P53 {
+                assert!(Some(ab) == (x as f64).partial_cmp(&y), "C14.ord: mixed order is numeric for |int| <= 2^53");
+            }
+        }
+        _ => {}
+    }
+    kani::cover!(ab == Ordering::Less && a.is_i64() && b.is_f64(), "int < float");
+    kani::cover!(ab == Ordering::Greater && a.is_f64() && b.is_f64(), "float > float");
+}
+
+fn in53(a: KNumber) -> bool {
+    match a {
+        KNumber::I64(x) => x >= -P53 && x <= P53,
+        KNumber::F64(_) => true,
+    }
+}
+
+// @props C14
+// @fns impl Ord for KNumber
+// @bound triples, all kinds, full width, NaN excluded, ints restricted to |int| <= 2^53 when any operand is a float
+#[kani::proof]
+fn c14_ord_trans() {
+    let a = any_num();
+    let b = any_num();
+    let c = any_num();
+    kani::assume(!a.is_nan() && !b.is_nan() && !c.is_nan());
+    let all_int = a.is_i64() && b.is_i64() && c.is_i64();
+    kani::assume(all_int || (in53(a) && in53(b) && in53(c)));
+    if a <= b && b <= c {
+        assert!(a <= c, "C14.ord: <= is transitive");
+    }
+    if a == b && b == c {
+        assert!(a == c, "C14.ord: == is transitive");
+    }
+    kani::cover!(a < b && b < c && a.is_i64() && b.is_f64() && c.is_i64(), "int < float < int");
+}
+
+// Known finding F12 partition for the order: beyond 2^53 `==` is not transitive.
+// @props C14
+// @fns impl Ord for KNumber, impl PartialEq for KNumber
+// @bound triples int/float/int with |int| > 2^53
+#[kani::proof]
+fn c14_ord_trans_large() {
+    let x: i64 = kani::any();
+    let z: i64 = kani::any();
+    let yb: u64 = kani::any();
+    let y = f64::from_bits(yb);
+    kani::assume(!y.is_nan());
+    kani::assume((x < -P53 || x > P53) && (z < -P53 || z > P53));
+    let (a, b, c) = (KNumber::I64(x), KNumber::F64(y), KNumber::I64(z));
+    if a == b && b == c {
+        assert!(a == c, "C14.ord.large: == is transitive across int/float/int beyond 2^53");
+    }
+}
+
+// ---------------------------------------------------------------------------------- C01
+
+// @props C01
+// @fns number_op!(Add/Sub) by value and by reference, impl Neg (both)
+// @bound full i64 x i64; oracle = i128 arithmetic reduced mod 2^64
+#[kani::proof]
+fn c01_int_addsub() {
+    let a: i64 = kani::any();
+    let b: i64 = kani::any();
+    let (ka, kb) = (KNumber::I64(a), KNumber::I64(b));
+    let add = wrap(a as i128 + b as i128);
+    let sub = wrap(a as i128 - b as i128);
+    let neg = wrap(-(a as i128));
+    assert!(same(ka + kb, KNumber::I64(add)), "C01.int: I64 + I64 wraps");
+    assert!(same(&ka + &kb, KNumber::I64(add)), "C01.int: &I64 + &I64 wraps");
+    assert!(same(ka - kb, KNumber::I64(sub)), "C01.int: I64 - I64 wraps");
+    assert!(same(&ka - &kb, KNumber::I64(sub)), "C01.int: &I64 - &I64 wraps");
+    assert!(same(-ka, KNumber::I64(neg)), "C01.int: -I64 wraps");
+    assert!(same(-&ka, KNumber::I64(neg)), "C01.int: -&I64 wraps");
+    kani::cover!(a > 0 && b > 0 && add < 0, "addition wraps around");
+    kani::cover!(a == i64::MIN, "negating i64::MIN");
+}
+
+// Cost note (measured): one full-width 64x64 multiplier equivalence costs ~25 s, two symbolic dividers or a
+// symbolic/symbolic f64 division do not finish in 300 s.  Hence: one equivalence per harness, and
+// multiplication / remainder / division are checked full-width on one operand against constants on the other.
+
+// @props C01
+// @fns number_op!(Mul) by value
+// @bound full i64 x i64 against std's wrapping_mul (taken as the definition of wrapping, DESIGN §4 C01.int)
+#[kani::proof]
+fn c01_int_mul() {
+    let a: i64 = kani::any();
+    let b: i64 = kani::any();
+    assert!(same(KNumber::I64(a) * KNumber::I64(b), KNumber::I64(a.wrapping_mul(b))), "C01.int: I64 * I64 wraps");
+    kani::cover!(a > 1 << 40 && b > 1 << 40, "product wraps");
 }
 
 // @props C01
-// @fns KNumber::add
-// @bound full i64 x i64
+// @fns number_op!(Mul) by reference
+// @bound full i64 x i64 against std's wrapping_mul
 #[kani::proof]
-fn c01_int_add() {
+fn c01_int_mul_ref() {
     let a: i64 = kani::any();
     let b: i64 = kani::any();
-    let r = KNumber::I64(a) + KNumber::I64(b);
-    let expect = ((a as i128 + b as i128) as u128 & 0xffff_ffff_ffff_ffff) as u64 as i64;
-    assert!(matches!(r, KNumber::I64(x) if x == expect), "C01.int: I64+I64 wraps");
+    assert!(same(&KNumber::I64(a) * &KNumber::I64(b), KNumber::I64(a.wrapping_mul(b))), "C01.int: &I64 * &I64 wraps");
+    kani::cover!(a > 1 << 40 && b > 1 << 40, "product wraps");
+}
+
+// a % k for k != 0 from the defining equation, with closed forms where they exist
+fn rem_oracle(a: i64, k: i64) -> i64 {
+    match k {
+        1 | -1 => 0,
+        2 => if a < 0 && a & 1 == 1 { -1 } else { a & 1 },
+        i64::MIN => if a == i64::MIN { 0 } else { a },
+        i64::MAX => if a == i64::MAX || a == -i64::MAX { 0 } else if a == i64::MIN { -1 } else { a },
+        _ => a % k,
+    }
+}
+
+fn mul_const(a: i64, k: i64) {
+    let (ka, kk) = (KNumber::I64(a), KNumber::I64(k));
+    let prod = wrap(a as i128 * k as i128);
+    assert!(same(ka * kk, KNumber::I64(prod)), "C01.int: I64 * const wraps");
+    assert!(same(&kk * &ka, KNumber::I64(prod)), "C01.int: &const * &I64 wraps");
+}
+
+// @props C01
+// @fns number_op!(Mul) by value and by reference
+// @bound one operand full i64, the other from {0, 1, -1, 2, 3, 10, -7, 2^32, i64::MAX, i64::MIN}, both operand orders; oracle: i128 product reduced mod 2^64
+#[kani::proof]
+fn c01_int_mul_const() {
+    let a: i64 = kani::any();
+    mul_const(a, 0);
+    mul_const(a, 1);
+    mul_const(a, -1);
+    mul_const(a, 2);
+    mul_const(a, 3);
+    mul_const(a, 10);
+    mul_const(a, -7);
+    mul_const(a, 1 << 32);
+    mul_const(a, i64::MAX);
+    mul_const(a, i64::MIN);
+    kani::cover!(a == i64::MIN, "i64::MIN operand");
+}
+
+fn rem_const(a: i64, k: i64) {
+    let (ka, kk) = (KNumber::I64(a), KNumber::I64(k));
+    assert!(same(ka % kk, KNumber::I64(rem_oracle(a, k))), "C01.int: I64 % const");
+    assert!(same(&ka % &kk, KNumber::I64(rem_oracle(a, k))), "C01.int: &I64 % &const");
+}
+
+// @props C01
+// @fns impl Rem for KNumber and &KNumber (I64 % I64 arm)
+// @bound dividend full i64, divisor from {1, -1, 2, i64::MAX, i64::MIN} (closed-form oracle) and {3, 10, -7, 2^32} (CBMC's % on a constant divisor as the definition)
+#[kani::proof]
+fn c01_int_rem_const() {
+    let a: i64 = kani::any();
+    rem_const(a, 1);
+    rem_const(a, -1);
+    rem_const(a, 2);
+    rem_const(a, i64::MAX);
+    rem_const(a, i64::MIN);
+    rem_const(a, 3);
+    rem_const(a, 10);
+    rem_const(a, -7);
+    rem_const(a, 1 << 32);
+    kani::cover!(a == i64::MIN, "i64::MIN dividend");
+}
+
+// @props C01
+// @fns impl Rem for KNumber (I64 % I64 arm), constant dividend
+// @bound dividend from {7, i64::MIN}, divisor full i64 non-zero
+#[kani::proof]
+fn c01_int_rem_const_lhs() {
+    let a: i64 = kani::any();
+    kani::assume(a != 0);
+    let ka = KNumber::I64(a);
+    let r7 = if a == -1 { 0 } else { 7 % a };
+    assert!(same(KNumber::I64(7) % ka, KNumber::I64(r7)), "C01.int: const % I64");
+    let rmin = if a == -1 { 0 } else { i64::MIN % a };
+    assert!(same(KNumber::I64(i64::MIN) % ka, KNumber::I64(rmin)), "C01.int: i64::MIN % I64");
+    kani::cover!(a == -1, "divisor -1");
+}
+
+// @props C01
+// @fns impl Rem (I64 % I64 arm)
+// @bound full i64 x i64, divisor non-zero: result kind and sign/magnitude laws (|r| < |b|, r == 0 or sign(r) == sign(a)); exact values: c01_int_rem_const*
+#[kani::proof]
+fn c01_int_rem_laws() {
+    let a: i64 = kani::any();
+    let b: i64 = kani::any();
+    kani::assume(b != 0);
+    match KNumber::I64(a) % KNumber::I64(b) {
+        KNumber::I64(r) => {
+            assert!(r == 0 || (r < 0) == (a < 0), "C01.int: remainder takes the sign of the dividend");
+            assert!((r as i128).abs() < (b as i128).abs(), "C01.int: |remainder| < |divisor|");
+        }
+        KNumber::F64(_) => assert!(false, "C01.int: I64 % non-zero I64 is an integer"),
+    }
+    kani::cover!(b == -1 && a == i64::MIN, "i64::MIN % -1");
+}
+
+// @props C01
+// @fns impl Div for KNumber, impl Div for &KNumber
+// @bound all kind combinations, full width: the result is always a float (values: c01_div_*)
+#[kani::proof]
+fn c01_div_kind() {
+    let a = any_num();
+    let b = any_num();
+    assert!((a / b).is_f64(), "C01.div: / always yields a float");
+    assert!((&a / &b).is_f64(), "C01.div: & / & always yields a float");
+    kani::cover!(a.is_i64() && matches!(b, KNumber::I64(0)), "int / 0");
+    kani::cover!(a.is_i64() && matches!(b, KNumber::I64(1)), "int / 1");
+}
+
+// @props C01
+// @fns impl Div for KNumber and &KNumber, I64 / I64 arm
+// @bound dividend full i64, divisor from {2, 0, -1, 3}; bit-for-bit against f64 division of the converted operands
+// @timeout 900
+#[kani::proof]
+fn c01_div_ii_const() {
+    let a: i64 = kani::any();
+    let x = a as f64;
+    let ka = KNumber::I64(a);
+    assert!(same(ka / KNumber::I64(2), KNumber::F64(x / 2.0)), "C01.div: int / 2 is the float quotient");
+    assert!(same(&ka / &KNumber::I64(2), KNumber::F64(x / 2.0)), "C01.div: &int / &2 is the float quotient");
+    assert!(same(ka / KNumber::I64(0), KNumber::F64(x / 0.0)), "C01.div: int / 0 is an infinity or NaN");
+    assert!(same(ka / KNumber::I64(-1), KNumber::F64(x / -1.0)), "C01.div: int / -1 is the float quotient");
+    assert!(same(ka / KNumber::I64(3), KNumber::F64(x / 3.0)), "C01.div: int / 3 is the float quotient");
+    kani::cover!(a > 2 && a % 2 == 0, "even int / 2");
+}
+
+// @props C01
+// @fns impl Div for KNumber and &KNumber, mixed and float arms
+// @bound one operand full-width f64 or i64, the other a constant of the other kind (2 / 2.0 / 0.5); bit-for-bit against f64 division of the converted operands
+// @timeout 900
+#[kani::proof]
+fn c01_div_mixed_const() {
+    let a: i64 = kani::any();
+    let fb: u64 = kani::any();
+    let f = f64::from_bits(fb);
+    assert!(same(KNumber::I64(a) / KNumber::F64(2.0), KNumber::F64(a as f64 / 2.0)), "C01.div: int / float const");
+    assert!(same(KNumber::F64(f) / KNumber::I64(2), KNumber::F64(f / 2.0)), "C01.div: float / int const");
+    assert!(same(&KNumber::F64(f) / &KNumber::F64(0.5), KNumber::F64(f / 0.5)), "C01.div: &float / &float const");
+    assert!(same(&KNumber::I64(a) / &KNumber::F64(0.5), KNumber::F64(a as f64 / 0.5)), "C01.div: &int / &float const");
+    kani::cover!(f == 3.0, "3.0 / 2");
+}
+
+// @props C01
+// @fns impl Div for KNumber, constant dividend
+// @bound dividend 1 (int) or 1.0, divisor full-width i64; bit-for-bit
+// @timeout 900
+// @tier thorough
+#[kani::proof]
+fn c01_div_const_lhs() {
+    let b: i64 = kani::any();
+    assert!(same(KNumber::I64(1) / KNumber::I64(b), KNumber::F64(1.0 / b as f64)), "C01.div: 1 / int");
+    kani::cover!(b == 0, "1 / 0");
+}
+
+fn mixed_pair() -> (KNumber, KNumber, f64, f64) {
+    let a = any_num();
+    let b = any_num();
+    kani::assume(a.is_f64() || b.is_f64());
+    (a, b, as_f(a), as_f(b))
+}
+
+// @props C01
+// @fns number_op!(Add) mixed-kind and float arms, by value
+// @bound at least one operand is F64, full width on both
+#[kani::proof]
+fn c01_mixed_add() {
+    let (a, b, x, y) = mixed_pair();
+    assert!(same(a + b, KNumber::F64(x + y)), "C01.mixed: + with a float operand is float addition of the converted operands");
+    kani::cover!(a.is_i64() && b.is_f64(), "int + float");
+    kani::cover!(a.is_f64() && b.is_i64(), "float + int");
+}
+
+// @props C01
+// @fns number_op!(Add) mixed-kind and float arms, by reference
+// @bound at least one operand is F64, full width on both
+#[kani::proof]
+fn c01_mixed_add_ref() {
+    let (a, b, x, y) = mixed_pair();
+    assert!(same(&a + &b, KNumber::F64(x + y)), "C01.mixed: &+& with a float operand is float addition of the converted operands");
+    kani::cover!(a.is_i64() && b.is_f64(), "&int + &float");
+}
+
+// @props C01
+// @fns number_op!(Sub) mixed-kind and float arms, by value
+// @bound at least one operand is F64, full width on both
+#[kani::proof]
+fn c01_mixed_sub() {
+    let (a, b, x, y) = mixed_pair();
+    assert!(same(a - b, KNumber::F64(x - y)), "C01.mixed: - with a float operand is float subtraction of the converted operands");
+    kani::cover!(a.is_i64() && b.is_f64(), "int - float");
+    kani::cover!(a.is_f64() && b.is_i64(), "float - int");
+}
+
+// @props C01
+// @fns number_op!(Sub) mixed-kind and float arms, by reference
+// @bound at least one operand is F64, full width on both
+#[kani::proof]
+fn c01_mixed_sub_ref() {
+    let (a, b, x, y) = mixed_pair();
+    assert!(same(&a - &b, KNumber::F64(x - y)), "C01.mixed: &-& with a float operand is float subtraction of the converted operands");
+    kani::cover!(a.is_f64() && b.is_i64(), "&float - &int");
+}
+
+// @props C01
+// @fns number_op!(Mul), impl Rem: mixed-kind and float arms
+// @bound one operand any kind full width, the other from {2.0, -0.5, 0.0} (float) or {3, -1} (int, with a full-width float on the other side); % : result kind only
+// @timeout 900
+#[kani::proof]
+fn c01_mixed_mulrem_const() {
+    let a = any_num();
+    let x = as_f(a);
+    let fb: u64 = kani::any();
+    let f = f64::from_bits(fb);
+    assert!(same(a * KNumber::F64(2.0), KNumber::F64(x * 2.0)), "C01.mixed: n * 2.0");
+    assert!(same(a * KNumber::F64(-0.5), KNumber::F64(x * -0.5)), "C01.mixed: n * -0.5");
+    assert!(same(&KNumber::F64(0.0) * &a, KNumber::F64(0.0 * x)), "C01.mixed: &0.0 * &n");
+    assert!(same(KNumber::F64(f) * KNumber::I64(3), KNumber::F64(f * 3.0)), "C01.mixed: float * 3");
+    assert!(same(&KNumber::I64(-1) * &KNumber::F64(f), KNumber::F64(-1.0 * f)), "C01.mixed: &-1 * &float");
+    assert!((a % KNumber::F64(2.0)).is_f64(), "C01.mixed: n % float is a float");
+    assert!((KNumber::F64(f) % KNumber::I64(3)).is_f64(), "C01.mixed: float % int is a float");
+    assert!((&KNumber::F64(f) % &a).is_f64(), "C01.mixed: &float % &n is a float");
+    kani::cover!(a.is_i64(), "int * float const");
+}
+
+// b-fold wrapping multiplication for the bases with a closed form
+fn pow_closed(base: i64, b: u64) -> i64 {
+    match base {
+        0 => if b == 0 { 1 } else { 0 },
+        1 => 1,
+        -1 => if b % 2 == 0 { 1 } else { -1 },
+        2 => if b < 64 { (1u64 << b) as i64 } else { 0 },
+        -2 => if b >= 64 { 0 } else if b % 2 == 0 { (1u64 << b) as i64 } else { ((1u64 << b) as i64).wrapping_neg() },
+        _ => unreachable!(),
+    }
+}
+
+fn pow_check(base: i64) {
+    let b: i64 = kani::any();
+    let r = KNumber::I64(base).pow(KNumber::I64(b));
+    if b >= 0 {
+        assert!(same(r, KNumber::I64(pow_closed(base, b as u64))), "C01.pow: I64 ^ I64 is b-fold wrapping multiplication");
+    } else {
+        assert!(r.is_f64(), "C01.pow: negative exponent yields a float");
+    }
+    kani::cover!(b > u32::MAX as i64, "exponent beyond u32");
+    kani::cover!(b == 63, "exponent 63");
+}
+
+// @props C01 C06
+// @fns KNumber::pow (I64 ^ I64 arm)
+// @bound concrete base 0 (closed form for b-fold wrapping multiplication), every exponent in [0, 2^63); negative exponents: result kind only
+// @timeout 900
+#[kani::proof]
+#[kani::unwind(66)]
+fn c01_pow_b0() {
+    pow_check(0);
+}
+
+// @props C01 C06
+// @fns KNumber::pow (I64 ^ I64 arm)
+// @bound concrete base 1 (closed form for b-fold wrapping multiplication), every exponent in [0, 2^63); negative exponents: result kind only
+// @timeout 900
+#[kani::proof]
+#[kani::unwind(66)]
+fn c01_pow_b1() {
+    pow_check(1);
+}
+
+// @props C01 C06
+// @fns KNumber::pow (I64 ^ I64 arm)
+// @bound concrete base -1 (closed form for b-fold wrapping multiplication), every exponent in [0, 2^63); negative exponents: result kind only
+// @timeout 900
+#[kani::proof]
+#[kani::unwind(66)]
+fn c01_pow_bm1() {
+    pow_check(-1);
+}
+
+// @props C01 C06
+// @fns KNumber::pow (I64 ^ I64 arm)
+// @bound concrete base 2 (closed form for b-fold wrapping multiplication), every exponent in [0, 2^63); negative exponents: result kind only
+// @timeout 900
+#[kani::proof]
+#[kani::unwind(66)]
+fn c01_pow_b2() {
+    pow_check(2);
+}
+
+// @props C01 C06
+// @fns KNumber::pow (I64 ^ I64 arm)
+// @bound concrete base -2 (closed form for b-fold wrapping multiplication), every exponent in [0, 2^63); negative exponents: result kind only
+// @timeout 900
+#[kani::proof]
+#[kani::unwind(66)]
+fn c01_pow_bm2() {
+    pow_check(-2);
+}
+
+
+// ---------------------------------------------------------------------------------- C06
+
+// @props C06
+// @fns impl Add/Sub/Mul/Rem/Div/Neg for KNumber and &KNumber, impl Ord, impl PartialEq
+// @bound all kinds, full width; no functional assertion: every panic-class check counts
+#[kani::proof]
+fn c06_num_ops() {
+    let a = any_num();
+    let b = any_num();
+    let r = [a + b, a - b, a * b, a % b, a / b, &a + &b, &a - &b, &a * &b, &a % &b, &a / &b, -a, -&a];
+    let _ = (a == b, a.cmp(&b), a.partial_cmp(&b));
+    std::mem::forget(r);
+    kani::cover!(matches!(b, KNumber::I64(0)) && a.is_i64(), "int % int 0");
+    kani::cover!(matches!(b, KNumber::I64(-1)) && matches!(a, KNumber::I64(i64::MIN)), "i64::MIN op -1");
+}
+
+// @props C06
+// @fns KNumber::{abs, ceil, floor, round, is_i64_in_f64_range, is_finite, is_nan, to_bits}
+// @bound all kinds, full width
+#[kani::proof]
+fn c06_num_unary() {
+    let a = any_num();
+    let _ = (a.abs(), a.ceil(), a.floor(), a.round(), a.is_i64_in_f64_range(), a.is_finite(), a.is_nan(), a.to_bits());
+    if let KNumber::I64(x) = a {
+        if x != i64::MIN {
+            assert!(same(a.abs(), KNumber::I64(if x < 0 { -x } else { x })), "C06.num: |int|");
+        }
+        assert!(same(a.ceil(), a) && same(a.floor(), a) && same(a.round(), a), "C06.num: rounding an int is the identity");
+    }
+    kani::cover!(matches!(a, KNumber::I64(i64::MIN)), "abs of i64::MIN");
+    kani::cover!(a.is_nan(), "rounding NaN");
+}
+
+// @props C06
+// @fns From<KNumber> for u8..usize, i8..i128, f32, f64; From<prim> for KNumber; PartialEq<prim>/PartialOrd<prim> for KNumber
+// @bound all kinds, full width; saturating conversion oracle for i64 -> narrower ints
+#[kani::proof]
+fn c06_num_conv() {
+    let a = any_num();
+    let _ = (u8::from(a), u16::from(a), u32::from(a), u64::from(a), u128::from(a), usize::from(a));
+    let _ = (i8::from(a), i16::from(a), i32::from(a), i64::from(a), i128::from(a), isize::from(a));
+    let _ = (f32::from(a), f64::from(a));
+    let p: i64 = kani::any();
+    let q: u64 = kani::any();
+    let f: u64 = kani::any();
+    let _ = (a == p, a == q, a == f64::from_bits(f), a == (p as i8), a == (q as u128), a.partial_cmp(&p), a.partial_cmp(&f64::from_bits(f)));
+    if let KNumber::I64(x) = a {
+        let u = u8::from(a);
+        let expect = if x < 0 { 0 } else if x > 255 { 255 } else { x as u8 };
+        assert!(u == expect, "C06.num: i64 -> u8 saturates");
+        let i = i8::from(a);
+        let expect = if x < -128 { -128 } else if x > 127 { 127 } else { x as i8 };
+        assert!(i == expect, "C06.num: i64 -> i8 saturates");
+        let us = usize::from(a);
+        assert!(us == if x < 0 { 0 } else { x as usize }, "C06.num: i64 -> usize saturates");
+    }
+    assert!(matches!(KNumber::from(q), KNumber::I64(v) if v == if q > i64::MAX as u64 { i64::MAX } else { q as i64 }), "C06.num: u64 -> KNumber saturates");
+    kani::cover!(matches!(a, KNumber::I64(x) if x > 255), "large int to u8");
 }
